@@ -650,6 +650,9 @@ static int run_cmd(struct ctx *c, char **t, int nt) {
     else if (!strcmp(kind, "contline")) fprintf(f, "k=v\n %s\n", field);
     else if (!strcmp(kind, "cbefore")) fprintf(f, "#%s\nk=v\n", field);
     else if (!strcmp(kind, "cafter")) fprintf(f, "k=v #%s\n", field);
+    /* a comment of SEVERAL lines (the field cut in three): a block above the key / one piece behind each line of a three-line value */
+    else if (!strcmp(kind, "cbefore3")) fprintf(f, "#%.*s\n#%.*s\n#%s\nk=v\n", (int)(len / 3), field, (int)(len / 3), field + len / 3, field + 2 * (len / 3));
+    else if (!strcmp(kind, "cafter3")) fprintf(f, "k=v #%.*s\n w #%.*s\n x #%s\n", (int)(len / 3), field, (int)(len / 3), field + len / 3, field + 2 * (len / 3));
     else if (!strcmp(kind, "quoted")) fprintf(f, "k=\"%s\"\n", field);
     else if (!strcmp(kind, "joined")) fprintf(f, "k=v\nk=%s\n", field);
     else if (!strcmp(kind, "lastline")) fprintf(f, "j=1\nk=%s", field);        /* the LAST line of a file that does not end with a newline */
@@ -669,16 +672,21 @@ static int run_cmd(struct ctx *c, char **t, int nt) {
     }
     if (!e) {
       econf_file *kfl = NULL;
-      for (int round = 0; round < 4; round++) {
-        econf_file *q = kf; const char *tag = round == 0 ? "" : round == 1 ? "merge+" : round == 2 ? "write+read+" : "symlink+";
+      for (int round = 0; round < 5; round++) {
+        econf_file *q = kf; const char *tag = round == 0 ? "" : round == 1 ? "merge+" : round == 2 ? "write+read+" : round == 3 ? "symlink+" : "written+";
+        /* round 4: the object itself once more AFTER it has been written (round 2) */
         char api[64];
         if (round == 3) {   /* the same file reached through a symbolic link (followed by default) */
-          if (!strcmp(kind, "joined")) break;
+          if (!strcmp(kind, "joined")) continue;
           char *lp; if (asprintf(&lp, "%s/long.link.conf", dir) < 0) lp = NULL; unlink(lp);
-          if (symlink(path, lp) != 0) { free(lp); break; }
+          if (symlink(path, lp) != 0) { free(lp); continue; }
           econf_err le = econf_readFile(&kfl, lp, "=", "#"); free(lp);
-          if (le) { LEV("symlink+readFile", le, NULL); break; } q = kfl; }
+          if (le) { LEV("symlink+readFile", le, NULL); continue; } q = kfl; }
         if (round == 1) { econf_newKeyFile(&other, '=', '#'); econf_setStringValue(other, "zz", "o", "1"); econf_err me = econf_mergeFiles(&m, kf, other); if (me) { LEV("merge", me, NULL); break; } q = m; }
+        /* (comment pieces behind the lines of a multi-line value: the writer puts them all behind the last line, each on a line of
+           its own - what reading that back gives is the writer's layout, not a question of length: C07 speaks of single-line
+           entries only.  The object is written all the same - round 4 looks at it afterwards.) */
+        if (round == 2 && !strcmp(kind, "cafter3")) { econf_err we = econf_writeFile(kf, dir, "long.out"); if (we) LEV("writeFile", we, NULL); continue; }
         if (round == 2) { econf_err we = econf_writeFile(kf, dir, "long.out"); if (we) { LEV("writeFile", we, NULL); break; }
           char *p2; if (asprintf(&p2, "%s/long.out", dir) < 0) p2 = NULL; econf_err re = econf_readFile(&kf2, p2, "=", "#"); free(p2); if (re) { LEV("write+readFile", re, NULL); break; } q = kf2; }
         if (!strcmp(kind, "value") || !strcmp(kind, "quoted") || !strcmp(kind, "lastline")) {
@@ -695,6 +703,12 @@ static int run_cmd(struct ctx *c, char **t, int nt) {
         } else if (!strcmp(kind, "section")) {
           size_t n = 0; char **gs = NULL; snprintf(api, sizeof api, "%sgetGroups", tag); e = econf_getGroups(q, &n, &gs); LEV(api, e, (e || !n) ? NULL : gs[0]); if (!e) econf_freeArray(gs);
           snprintf(api, sizeof api, "%sgetStringValue(by section)", tag); e = econf_getStringValue(q, g, "k", &str); LEV(api, e, e ? NULL : "HT"); if (!e) free(str);
+        } else if (!strcmp(kind, "cbefore3") || !strcmp(kind, "cafter3")) {
+          snprintf(api, sizeof api, "%sgetExtValue.comment", tag); e = econf_getExtValue(q, g, k, &x);
+          const char *c = e ? NULL : (!strcmp(kind, "cbefore3") ? x->comment_before_key : x->comment_after_value);
+          char *j = NULL;        /* the pieces without the line ends between them: the field again */
+          if (c) { j = malloc(strlen(c) + 1); size_t w = 0; for (const char *r = c; *r; r++) if (*r != '\n') j[w++] = *r; j[w] = 0; }
+          LEV(api, e, j); free(j); if (!e) econf_freeExtValue(x);
         } else if (!strcmp(kind, "cbefore") || !strcmp(kind, "cafter")) {
           snprintf(api, sizeof api, "%sgetExtValue.comment", tag); e = econf_getExtValue(q, g, k, &x);
           const char *c = e ? NULL : (!strcmp(kind, "cbefore") ? x->comment_before_key : x->comment_after_value);
